@@ -7,6 +7,15 @@ import (
 // GenNet generates a multi-node history: validators 0..n-1; the first n-f of them run an honest node each (they only
 // propose on their own best block with the COM bit their engine computes); the last f are Byzantine (any parent, any
 // COM bit, equivocation). Delivery is random: immediate, delayed, duplicated, withheld; nodes restart now and then.
+// drawFinality: FINALITY fork height of a run: mostly 0; otherwise aligned (L, 2L) or unaligned (L/2, L+1, 2L-1) with the
+// epoch length.
+func drawFinality(r *hx.Rand, L uint32) uint32 {
+	if !r.Chance(2, 5) {
+		return 0
+	}
+	return []uint32{L, 2 * L, L / 2, L + 1, 2*L - 1}[r.Intn(5)]
+}
+
 func GenNet(r *hx.Rand, thorough bool) *Script {
 	n := []int{4, 4, 4, 5, 6, 7}[r.Intn(6)]
 	f := (n - 1) / 3
@@ -14,7 +23,7 @@ func GenNet(r *hx.Rand, thorough bool) *Script {
 		f = 0
 	}
 	L := uint32([]int{3, 4, 4, 5, 6, 8}[r.Intn(6)])
-	sc := &Script{Cfg: Config{N: n, L: L, MBP: uint64(n)}}
+	sc := &Script{Cfg: Config{N: n, L: L, MBP: uint64(n), F: drawFinality(r, L)}}
 	honest := n - f
 	for i := 0; i < honest; i++ {
 		sc.Nodes = append(sc.Nodes, i)
@@ -101,7 +110,7 @@ func GenTree(r *hx.Rand, thorough bool) *Script {
 	if r.Chance(1, 5) {
 		mbp = uint64(r.Range(1, n+2))
 	}
-	sc := &Script{Cfg: Config{N: n, L: L, MBP: mbp}, Nodes: []int{0, 1}}
+	sc := &Script{Cfg: Config{N: n, L: L, MBP: mbp, F: drawFinality(r, L)}, Nodes: []int{0, 1}}
 	size := int(L) * r.Range(3, 8)
 	if thorough {
 		size = int(L) * r.Range(4, 14)
@@ -178,7 +187,7 @@ func GenTree(r *hx.Rand, thorough bool) *Script {
 func GenHonest(r *hx.Rand, thorough bool) *Script {
 	n := []int{4, 4, 5, 6, 7, 9}[r.Intn(6)]
 	L := uint32([]int{3, 4, 5, 6, 8}[r.Intn(5)])
-	sc := &Script{Cfg: Config{N: n, L: L, MBP: uint64(n)}}
+	sc := &Script{Cfg: Config{N: n, L: L, MBP: uint64(n), F: drawFinality(r, L)}}
 	for i := 0; i < n; i++ {
 		sc.Nodes = append(sc.Nodes, i)
 	}
